@@ -335,6 +335,9 @@ func (w *world) process(name string, pc procCfg, bo buildOpts, stepHook func(ste
 		if err != nil || bo.LoadOnly {
 			return
 		}
+		if hashHook != nil && (bo.DryRun || bo.GC) {
+			hashHook(w)
+		}
 		if bo.GC {
 			res.RunErr = proj.GC()
 			res.Ran = true
